@@ -5,6 +5,7 @@ import Resolvo.Drv.Solve
 import Resolvo.Drv.Cache
 import Resolvo.Drv.Pool
 import Resolvo.Drv.Snapshot
+import Resolvo.Drv.Containers
 open Resolvo.Drv
 
 def runCase (c : Case) : List String :=
@@ -15,6 +16,7 @@ def runCase (c : Case) : List String :=
   | "cache" => runCache c.lines
   | "pool" => runPool c.lines
   | "snapshot" => runSnapshot c.lines
+  | "containers" => runContainers c.lines
   | "soft" => runSolve c.lines
   | "lazy" => runSolve c.lines
   | "cancel" => runSolve c.lines
